@@ -45,6 +45,7 @@ def check(ctx, report):
     report.rule('C03.R5', 'framing units: body contained in the declared length; frame never empty')
     nested_lengths(ctx, report)
     item_windows(ctx, report)
+    declared_windows(ctx, report)
     entry_points(ctx, report)
     ownership(ctx, report)
     return_lengths(ctx, report)
@@ -763,3 +764,43 @@ def item_windows(ctx, report):
                                'the buffer handed to the item parsers (%s = %s) does not end at offset + items_size: the last item can read past the declared array' % (
                                    arg.id, ast.unparse(first)[:60]))
     report.floor('C03.R7', 2, 'sized array item parses')
+
+
+# ---- R8: a window cut out of the input by a declared length is checked against the bytes present ----------------------
+
+def declared_windows(ctx, report):
+    """``parsable[a:<expression over a parsed length field>]`` silently yields fewer bytes than declared when the buffer is
+    short (python slices never fail): the structure is then accepted from a proper prefix with a smaller n. Such a slice
+    must be dominated by a comparison of the declared end with len(parsable) that raises NotEnoughData."""
+    model = ctx.model
+    report.rule('C03.R8', 'a slice of the input bounded by a declared length is preceded by an availability check')
+    n = 0
+    for f in model.functions():
+        if f.module.external or not f.name.lstrip('_').startswith('parse') or not f.node.args.args:
+            continue
+        params = [a.arg for a in f.node.args.args]
+        buf = 'parsable' if 'parsable' in params else None
+        if buf is None:
+            continue
+        for s in ast.walk(f.node):
+            if not (isinstance(s, ast.Subscript) and isinstance(s.value, ast.Name) and s.value.id == buf and isinstance(s.slice, ast.Slice) and s.slice.upper is not None):
+                continue
+            up = s.slice.upper
+            fields = [x for x in ast.walk(up) if isinstance(x, ast.Subscript) and isinstance(x.slice, ast.Constant) and isinstance(x.slice.value, str)]
+            if not fields:
+                continue
+            n += 1
+            report.count('C03.R8')
+            report.touch(f)
+            key = fields[0].slice.value
+            guarded = False
+            for g in ast.walk(f.node):
+                if isinstance(g, ast.If) and g.lineno < s.lineno and 'len(%s)' % buf in ast.unparse(g.test) and key in ast.unparse(g.test) and \
+                        any(isinstance(x, ast.Raise) and 'NotEnoughData' in ast.unparse(x) for x in ast.walk(g)):
+                    guarded = True
+            if not guarded:
+                report.add('C03.R8', '%s@window[%s]' % (f.construct, key),
+                           'the input is sliced up to an offset computed from the parsed field %r without checking that the buffer is that long: a '
+                           'buffer that ends early is accepted as a shorter structure (n smaller than the declared size)' % key)
+    if n < 1:
+        report.error('C03.R8: no length bounded window slice found (anchor moved)')
